@@ -727,6 +727,9 @@ class Fn:
             elif 'f' in e:
                 if isinstance(base, tuple) and base[0] == 'closure_env':
                     base = ('upvar', e['i'])
+                elif isinstance(base, tuple) and base[:1] == ('agg',) and isinstance(base[1], str) and (base[1].startswith('adt:') or base[1] == 'tuple') \
+                        and isinstance(e.get('i'), int) and e['i'] < len(base[2]) and not base[1].startswith('adt:std::option::Option'):
+                    base = base[2][e['i']]     # field of a struct / tuple literal built in this body (`LinePos { line, offset }.offset`)
                 else:
                     base = ('field', base, e['f'])
             elif 'idx' in e:
@@ -764,15 +767,30 @@ class Fn:
         # ignore definitions in unreachable (specialised-away) blocks
         self.dom()
         ds = [d for d in ds if d[0] in self.reach]
+        if len(ds) > 1 and depth <= 14 and all(d[1] == 'assign' for d in ds):
+            # the result of an inlined helper with several returns: every definition is a `return` of the same inlined call;
+            # as a TERM it is that call on its arguments (the body is inlined for the rules that scan statements, the value keeps
+            # the summaries a call has)
+            rcs = [self.blocks[d[0]]['s'][d[3]].get('ret_call') for d in ds]
+            if all(rc is not None for rc in rcs) and len({rc['site'] for rc in rcs}) == 1:
+                rc = rcs[0]
+                args = tuple(self.operand_term(a, depth + 1) for a in rc['args'])
+                return inline_call(self.facts, rc['fn'], args, self.spec)
         if len(ds) != 1 or depth > 14:
             return ('unknown', self.names.get(l, '_%d' % l), len(ds))
         key = l
         if key in self._term_cache:
             return self._term_cache[key]
-        bi, kind, pl, _ = ds[0]
+        bi, kind, pl, si_ = ds[0]
         if kind == 'assign':
             rv = pl
             t = self.rvalue_term(rv, depth)
+            rc = self.blocks[bi]['s'][si_].get('ret_call') if si_ < len(self.blocks[bi]['s']) else None
+            if rc is not None and isinstance(t, tuple) and t[:1] == ('unknown',):
+                # result of an inlined helper whose return place is assigned on several paths: as a TERM it is that call on
+                # its arguments (the body is inlined for the rules that scan statements; the value keeps the summaries a call has)
+                args = tuple(self.operand_term(a, depth + 1) for a in rc['args'])
+                t = inline_call(self.facts, rc['fn'], args, self.spec)
         else:
             t = self.call_term(pl, depth)
         if depth == 0:
@@ -1778,7 +1796,8 @@ def inline_body(facts, f, policy=None, max_depth=4, max_blocks=4000):
                     if nb['t']['k'] == 'return':
                         if t['to'] >= 0:
                             nb['s'] = nb['s'] + [{'lhs': t['dest'], 'rv': {'k': 'use', 'a': {'p': {'l': loff, 'proj': []}}},
-                                                  'line': t.get('line', ''), 'macros': [], 'ret_of': g['path']}]
+                                                  'line': t.get('line', ''), 'macros': [], 'ret_of': g['path'],
+                                                  'ret_call': {'fn': fn, 'args': t['args'], 'site': bi}}]
                             nb['t'] = {'k': 'goto', 'to': t['to']}
                         else:
                             nb['t'] = {'k': 'unreachable'}
